@@ -191,9 +191,13 @@ theorem cons_apiSearch_proxySearch_eq_proxysearch_search (r : Api.ProxyReq) (qs 
   · have hst := apiSearch_searchStores_okArrival qs
     refine ⟨ProxySearch.paginate (ProxySearch.mergeQPRs (decide (r.order = 1)) (r.offset.toNat + r.size.toNat) qs).ids
       r.offset.toNat r.size.toNat, (ProxySearch.mergeQPRs (decide (r.order = 1)) (r.offset.toNat + r.size.toNat) qs).nerr, ?_, ?_⟩
-    · unfold ProxySearch.search
+    · have hlw : ProxySearch.limitWraps r.offset.toNat r.size.toNat = false := by
+        unfold ProxySearch.limitWraps
+        simp only [decide_eq_false_iff_not]
+        omega
+      unfold ProxySearch.search
       rw [hst]
-      simp only [ProxySearch.finish]
+      simp only [ProxySearch.finish, hlw, Bool.false_eq_true, if_false]
       rw [ProxyCompose.merge_total_agree (decide (r.order = 1)) (r.offset.toNat + r.size.toNat) r.interval qs hb, hdesc]
       rfl
     · rw [hdesc]
@@ -207,14 +211,15 @@ example : ProxyCompose.Bounded [⟨(0, 0), [(5, 7)], 1, 0⟩] := by
 
 /-! ## limit arithmetic `sr.Offset + sr.Size` -/
 
-/-- FINDING (domain gap of the older model): Go computes the merge limit `sr.Offset+sr.Size` in `int`; for
-`Offset = MaxInt64, Size = 1` it wraps to `MinInt64` and `MergeQPRs` panics in `ids[:min(len(ids), limit)]`
-(seq/qpr.go) - that is what `SV.Api.proxySearch` returns (`.panic`).  `SV.ProxySearch.search` adds unbounded naturals and
-returns an (empty) page.  The Api model matches Go; the C16 model is exact for `offset + size < 2^63`, the hypothesis
-`hsum` above. -/
+/-- Go computes the merge limit `sr.Offset+sr.Size` in `int`; for `Offset = MaxInt64, Size = 1` it wraps to `MinInt64`
+and `MergeQPRs` panics in `ids[:min(len(ids), limit)]` (seq/qpr.go).  Both models now say so: `SV.Api.proxySearch`
+returns `.panic`, and `SV.ProxySearch.search` (C16, `limitWraps`, since the wave-5 repair of that model - it used to add
+unbounded naturals and return an empty page) returns `.panic` as well; the C16 harness confirms it on the real
+handlers and over the real gRPC server (the client sees codes.Internal).  `hsum` above is the domain on which a page is
+returned at all. -/
 theorem cons_apiSearch_limit_wrap_witness :
     Api.proxySearch ⟨0, 0, 1, 9223372036854775807, 0, false, 0⟩ [.ok ⟨[], 0, none⟩] = .panic ∧
-    ProxySearch.search [(0, .ok 0 [] 0 0)] [] 9223372036854775807 1 false = .ok [] 0 0 false false := by
+    ProxySearch.search [(0, .ok 0 [] 0 0)] [] 9223372036854775807 1 false = .panic := by
   constructor
   · decide
   · decide
